@@ -157,6 +157,8 @@ type HistResult struct {
 	C05       []MonitorFailure
 	C03       []MonitorFailure
 	C27       []MonitorFailure
+	C26       []MonitorFailure
+	C26Replays int
 	C27Checked int
 	C27Both   int
 	C27Cases  [][2][]*big.Int // model 22 cases
@@ -259,6 +261,7 @@ type genOpts struct {
 	CheckDeliver bool // run every transaction in check mode on the in-flight state right before delivering it (C06)
 	NetworkUpdate bool // all validators vote a network version that is adopted a few blocks into the history (needs spec.Versions without it)
 	FailFrame    bool // C03: a rejected transaction changes nothing but one account's balance (the fee payer's)
+	Replay       bool // C26: accepted transactions are delivered again (same block and later blocks): never accepted twice
 	FeeRoute     bool // C27: a commission paid in a coin with a reserve AND a pool takes the cheaper route
 	CandAuth     bool // C05: candidate settings change only by the owner (on/off also by the control address)
 }
@@ -279,6 +282,7 @@ func genHistory(seed uint64, spec *GenesisSpec, g *genOpts) (*History, *HistResu
 		prev = holdings(&e)
 		prevEm = new(big.Int).Set(n.App.VerifAppDB().Emission())
 	}
+	var replayPool []*GenTx // accepted transactions of earlier blocks
 	var frameSections []c11Section
 	frameFrozen := map[uint64]bool{}
 	for b := 0; b < g.Blocks; b++ {
@@ -304,6 +308,24 @@ func genHistory(seed uint64, spec *GenesisSpec, g *genOpts) (*History, *HistResu
 			}
 			txs = append(txs, raw)
 			gens = append(gens, gt)
+		}
+		if g.Replay {
+			// the same signed bytes again: right after their first delivery in this block, and from earlier blocks
+			var extra [][]byte
+			var extraG []*GenTx
+			for i, gt := range gens {
+				if gt != nil && r.Intn(5) == 0 {
+					extra = append(extra, txs[i])
+					extraG = append(extraG, &GenTx{Kind: "replay-same-block:" + gt.Kind, Raw: txs[i], Sender: gt.Sender, Gas: gt.Gas})
+				}
+			}
+			if len(replayPool) > 0 && r.Intn(2) == 0 {
+				k := r.Intn(len(replayPool))
+				extra = append(extra, replayPool[k].Raw)
+				extraG = append(extraG, &GenTx{Kind: "replay-later:" + replayPool[k].Kind, Raw: replayPool[k].Raw, Sender: replayPool[k].Sender, Gas: replayPool[k].Gas})
+			}
+			txs = append(txs, extra...)
+			gens = append(gens, extraG...)
 		}
 		if g.NetworkUpdate && b == 1 {
 			for vi := 0; vi < spec.NVals; vi++ {
@@ -621,8 +643,29 @@ func genHistory(seed uint64, spec *GenesisSpec, g *genOpts) (*History, *HistResu
 			res.Hashes, res.Results, res.Updates = res.Hashes[:len(res.Hashes)-1], res.Results[:len(res.Results)-1], res.Updates[:len(res.Updates)-1]
 			break
 		}
+		if g.Replay {
+			firstCode := map[string]uint32{}
+			for i, tr := range br.Txs {
+				if i >= len(gens) || gens[i] == nil {
+					continue
+				}
+				key := string(gens[i].Raw)
+				if strings.HasPrefix(gens[i].Kind, "replay-") {
+					res.C26Replays++
+					fc, seenHere := firstCode[key]
+					if tr.Code == 0 && (!seenHere || fc == 0) {
+						res.C26 = append(res.C26, MonitorFailure{What: fmt.Sprintf("C26: the signed bytes of an accepted %s transaction were accepted (code 0) again at height %d raw=%x", gens[i].Kind, n.Height, gens[i].Raw), Key: "c26-replay-accepted"})
+					}
+					continue
+				}
+				firstCode[key] = tr.Code
+				if tr.Code == 0 && len(replayPool) < 200 {
+					replayPool = append(replayPool, gens[i])
+				}
+			}
+		}
 		for i, tr := range br.Txs {
-			if i < len(gens) {
+			if i < len(gens) && gens[i] != nil && !strings.HasPrefix(gens[i].Kind, "replay-") {
 				// the nonce bookkeeping of the generator assumed success
 				w.Observe(gens[i], tr)
 			}
